@@ -10,6 +10,7 @@ from contextlib import contextmanager
 from stone.frontend.ir_generator import doc_ref_re
 from stone.ir import (
     is_alias,
+    is_tag_ref,
     resolve_aliases,
     strip_alias
 )
@@ -74,6 +75,10 @@ def remove_aliases_from_api(api):
         for data_type in namespace.data_types:
             for field in data_type.fields:
                 strip_alias(field)
+                # a tag default reached through an alias names the alias too
+                default = getattr(field, '_default', None)
+                if is_tag_ref(default) and is_alias(default.union_data_type):
+                    default.union_data_type = resolve_aliases(default.union_data_type)
         for route in namespace.routes:
             # Strip inner aliases
             strip_alias(route.arg_data_type)
